@@ -104,6 +104,7 @@ type Engine struct {
 	cur      *State
 	harnessPkg *ssa.Package
 	feasCache map[string]Result
+	initCache map[*ssa.Package]*initSnap
 }
 
 func NewEngine(prog *ssa.Program, cfg Config) (*Engine, error) {
@@ -135,7 +136,7 @@ func NewEngine(prog *ssa.Program, cfg Config) (*Engine, error) {
 	e := &Engine{prog: prog, ts: ts, solver: s, cfg: cfg,
 		stubs: map[string]*ssa.Function{}, violTags: map[string]bool{},
 		initStores: map[*ssa.Package]map[*ssa.Global]bool{}, noopT: map[string]types.Type{},
-		feasCache: map[string]Result{}}
+		feasCache: map[string]Result{}, initCache: map[*ssa.Package]*initSnap{}}
 	return e, nil
 }
 
